@@ -311,6 +311,8 @@ def run_shard(ctx: Ctx) -> None:
         items = []
         for k in range(bs):
             d = specgen.generate(ctx.rng, prof={"p_union": 0.35, "max_props": 7, "schemas": (4, 8)})
+            if k % 3 == 1:
+                specgen.add_exotic_media_operations(ctx.rng, d)
             items.append({"doc": d, "layout": ctx.rng.randrange(len(c01.LAYOUTS)), "strategy": "operationId",
                           "n": ctx.shard * 100000 + b + k})
         run_batch(ctx, items)
